@@ -44,7 +44,7 @@ P['C13'] = {
     'assumptions': ['find_right_crc contract trusted; spec_crc / spec_byte are tied to calc_crc / bits2byte only through the Kani group', 'chunk independence of HdlcDeframer (C08) is not claimed: the automaton state is carried in self.state and work() applies update_state bit by bit, but no mirror function of the whole automaton is proved'],
 }
 P['C14'] = {
-    'units': ['kani:codecs', 'fsrc', 'tcp', 'au', 'sigmf', 'bx:auenc'],
+    'units': ['kani:codecs', 'fsrc', 'tcp', 'au', 'auenc', 'sigmf'],
     'technique': 'Kani/CBMC loop-free full-domain proofs of Sample::{serialize,parse,size} for u8,u32,i32,f32,Complex',
     'level_text': 'Codecs + file source: FileSource::work reassembles exactly the file\'s samples for EVERY segmentation of the byte stream (read() may return any 1..=len bytes, incl. splits inside a sample), repeated `count` times (Verus, stream + reader contract). parse(serialize(x)) is bit-identical to x for every bit pattern (NaN payloads included), serialize(x).len() == size(), parse never errs on size() bytes and serialize(parse(d)) == d for every byte pattern; Complex wire order I then Q, little endian. TcpSource::work likewise for a socket. AuDecode::work: header state machine, then exactly one sample per two payload bytes (no extra or missing samples). SigMF, AuEncode and the sink-then-source file round trip are NOT decided.',
     'level_note': 'Loop-free harnesses over the full input domain are complete proofs. FileSource, TcpSource, SigMFSource, AuEncode/AuDecode use BufReader, sockets, tar, serde_json and iterator chains: outside Verus\' subset; Kani cannot run streams.',
@@ -69,7 +69,7 @@ _NOT_COVERED_BLOCKS = ['derive-generated sync work(): only a BOUNDED drip-feed s
                        'ToText', 'FftStream', 'CorrelateAccessCode*', 'BurstTagger', 'Tee/Add/AddConst/MultiplyConst/convert (macro-generated loops)',
                        'Delay::set_delay', 'every derive-generated sync work()']
 
-_BU = ['skip', 'delay', 'vsrc', 'v2s', 'consts', 'resampler', 'rtlsdr', 's2pdu', 'hilbert', 'fftstream']
+_BU = ['skip', 'delay', 'vsrc', 'v2s', 'consts', 'resampler', 'rtlsdr', 's2pdu', 'hilbert', 'fftstream', 'fftfilter']
 _FIR = ['fir']
 P['C08'] = {
     'units': list(_BU) + _FIR + ['zc', 'bx:sync', 'bx:dsp'],
@@ -93,14 +93,14 @@ P['C10'] = {
     'not_covered': _NOT_COVERED_BLOCKS, 'assumptions': _BLOCK_ASSUME,
 }
 P['C12'] = {
-    'units': ['ring', 'skip', 'delay', 'vsrc', 'v2s', 'fir', 'hilbert', 'kernels', 'bx:sync', 'bx:dsp'],
+    'units': ['ring', 'skip', 'delay', 'vsrc', 'v2s', 'fir', 'hilbert', 'fftfilter', 'kernels', 'bx:sync', 'bx:dsp'],
     'technique': 'Verus: caller-against-callee check of the stream contract tag.pos < n at every produce() call site + tag-transfer clause of each block invariant',
     'level_text': 'Deductive proof for a stated subset: (a) every produce(n, tags) call site in covered bodies establishes tag.pos < n (the precondition Buffer::produce carries in unit ring); (b) dst.tags == G(src tags of consumed samples): identity after the skip for Skip, shift by the delay for Delay, marker tags once per repetition for VectorSource, start/end per packet for VecToStream.',
     'level_note': 'Subset only: FirFilter (/deci), Hilbert, FftFilter, correlator, burst tagger, Tee and macro-generated tag forwarding are not decided.',
     'not_covered': _NOT_COVERED_BLOCKS + ['FirFilter / FftFilter / Hilbert tag forwarding'], 'assumptions': _BLOCK_ASSUME,
 }
 P['C15'] = {
-    'units': ['skip', 'delay', 'v2s', 'fir', 'resampler', 'rtlsdr', 's2pdu', 'hilbert', 'fftstream', 'zc', 'sigmf', 'wpcr', 'hdlc', 'tcp', 'au', 'kani:lfsr', 'kani:hdlc', 'kani:codecs', 'bx:dsp'],
+    'units': ['skip', 'delay', 'v2s', 'fir', 'resampler', 'rtlsdr', 's2pdu', 'hilbert', 'fftstream', 'fftfilter', 'zc', 'sigmf', 'wpcr', 'hdlc', 'tcp', 'au', 'auenc', 'kani:lfsr', 'kani:hdlc', 'kani:codecs', 'bx:dsp'],
     'technique': 'Verus panic-freedom obligations (refuse/overflow/bounds/callee preconditions unreachable for arbitrary sample values) + Kani totality harnesses over all input bytes',
     'level_text': 'Deductive proof for a stated subset: in the covered work() bodies no panic site is reachable for any sample values; bits2byte, calc_crc (lengths 1..2, thorough ..4) and the codecs\' parse never panic for any byte values; the two LFSR steps are checked for every input byte.',
     'level_note': 'Subset only: AuDecode header arithmetic, HdlcDeframer::update_state, wpcr, sigmf, StreamToPdu, symbol sync, zero crossing are not decided.',
